@@ -336,6 +336,9 @@ def plan_C04(c):
 def plan_C05(c):
     c.mc('MC_SpecLaws', cfg='MC_SpecLaws' if c.tier != 'quick' else 'MC_SpecLaws_quick')
     c.mc('MC_Refine', cfg='MC_Refine_halfdown_tie', expect='violation')
+    c.mc('MC_Refine', cfg='MC_Refine_far_zero', expect='violation')      # round.rs "far" branch: directed modes must still move away from zero
+    if c.tier != 'quick':
+        c.mc('MC_Refine', cfg='MC_Refine_ok_full')
     # the kernel grid: every (n, d) x 8 modes x sign of d
     calls = []
     for n, d in grid(c, 'kernel'):
